@@ -288,6 +288,31 @@ impl C18 {
                     return fail(col, "neutral-operation-visible", d, steps);
                 }
             }
+            // the host takes the execute permission away (or scribbles over the code) in the middle of the run: the
+            // next step fails, and the trace - whose entries point at code that can no longer be decoded - still renders
+            if steps > 2 && rng.below(60) == 0 {
+                let code_start = proggen::CODE_AT - prog.entry_off;
+                if rng.below(2) == 0 {
+                    let _ = call(|| ax.mem_prot(code_start, 1));
+                } else {
+                    let _ = call(|| {
+                        ax.mem_prot(code_start, 3)?;
+                        ax.mem_write_bytes(code_start, &vec![0x06u8; prog.entry_off as usize + prog.code.len()])?;
+                        ax.mem_prot(code_start, 5)
+                    });
+                }
+                col.distinct_key("code-invalidated-mid-run");
+                let r = call(|| block_on(ax.step()));
+                col.eval(1);
+                if r.is_panic() {
+                    return fail(col, &format!("step-panic:{}", r.panic_key()), r.describe(), steps);
+                }
+                if let Some((rule, d)) = render_all(&mut ax) {
+                    return fail(col, &rule, d, steps);
+                }
+                end = "error";
+                break;
+            }
             let ins = decode_at(&prog.code, proggen::CODE_AT, rip);
             col.publish("trace", &prog.shape);
             let r = call(|| block_on(ax.step()));
